@@ -1574,6 +1574,8 @@ class Sym:
         CTX.reset()
         s.inputs = {}
         s.pending_canaries = {}
+        s.unknowns = 0
+        CTX.timeout = 20000 if getattr(vk, "tier", "quick") == "thorough" else 5000
 
     # -- inputs
     def size(s, name, lo=1, hi=None):
@@ -1682,8 +1684,12 @@ class Sym:
             claim = z3.BoolVal(bool(claim))
         pre = [p for p in pre if isz(p) or not p]
         pre = [p if isz(p) else z3.BoolVal(False) for p in pre]
-        s.vk.ensures_smt(clause, claim, list(CTX.assumptions) + pre + [Z(h) for h in hints], timeout_ms=timeout_ms or CTX.timeout)
+        budget = timeout_ms or CTX.timeout
+        if s.unknowns >= 4:
+            budget = min(budget, 1500)  # changed code that leaves many queries open: do not burn the wall clock
+        s.vk.ensures_smt(clause, claim, list(CTX.assumptions) + pre + [Z(h) for h in hints], timeout_ms=budget)
         o = s.vk.obl[-1]
+        s.unknowns += o["status"] == "undecided"
         o["family"] = f"{s.vk.prefix}/{clause.split('[')[0]}"
         return o["status"]
 
